@@ -8,6 +8,7 @@ import (
 	"encoding/json"
 	"errors"
 	"fmt"
+	"io"
 	"net"
 	"strconv"
 	"strings"
@@ -59,24 +60,27 @@ type Scenario struct {
 	MaxTCPQ   int      `json:"max_tcp_queries,omitempty"`
 	Clients   []Client `json:"clients"`
 
-	ServeAfter  int    `json:"serve_after,omitempty"`
-	Start2      bool   `json:"start2,omitempty"`
-	Early       bool   `json:"early_shutdown,omitempty"` // a Shutdown issued before the server is started
-	FailStart   string `json:"fail_start,omitempty"`     // a ListenAndServe that cannot succeed (bogus network / TLS without certificate) is attempted first
-	UDPSock     bool   `json:"udp_sock,omitempty"`       // udp: the server runs on a UDP socket (SessionUDP branch) where the build has that seam
-	PostYield   bool   `json:"post_yield,omitempty"`     // the return of every transport operation is a scheduling point of its own
-	Spare       bool   `json:"spare_listener,omitempty"` // a udp server is also given a Listener it does not serve on
-	ShutKind    string `json:"shut_kind"`                // plain | ctx
-	ShutAfter   int    `json:"shut_after"`
-	CtxMs       int    `json:"ctx_ms,omitempty"`
-	Transient   []int  `json:"transient,omitempty"`      // these accept / datagram-read attempts fail with a temporary, non-timeout error
-	FatalAccept int    `json:"fatal_accept,omitempty"`   // tcp / tls: from this Accept attempt on (1-based) the listener fails with a permanent, non-temporary error: the serve call may end with that error, everything else the property says still holds
-	OwnErr      bool   `json:"own_closed_err,omitempty"` // tcp / tls: Accept on the closed listener fails with an error of the listener's own, not net.ErrClosed
-	CloseErr    bool   `json:"close_err,omitempty"`      // tcp / tls: closing the listener reports an error (it is closed all the same)
-	Listen      bool   `json:"listen,omitempty"`         // the server is started with ListenAndServe (socket seam of the instrumented build) instead of ActivateAndServe
-	ReuseOpts   int    `json:"reuse_opts,omitempty"`     // ListenAndServe: bit 0 ReusePort, bit 1 ReuseAddr
-	ShutB       bool   `json:"shutdown_b,omitempty"`     // a second, concurrent Shutdown
-	Shut3       bool   `json:"shutdown_3,omitempty"`     // a Shutdown after the first has returned
+	ServeAfter   int    `json:"serve_after,omitempty"`
+	Start2       bool   `json:"start2,omitempty"`
+	Early        bool   `json:"early_shutdown,omitempty"` // a Shutdown issued before the server is started
+	FailStart    string `json:"fail_start,omitempty"`     // a ListenAndServe that cannot succeed (bogus network / TLS without certificate) is attempted first
+	UDPSock      bool   `json:"udp_sock,omitempty"`       // udp: the server runs on a UDP socket (SessionUDP branch) where the build has that seam
+	PostYield    bool   `json:"post_yield,omitempty"`     // the return of every transport operation is a scheduling point of its own
+	Spare        bool   `json:"spare_listener,omitempty"` // a udp server is also given a Listener it does not serve on
+	ShutKind     string `json:"shut_kind"`                // plain | ctx
+	ShutAfter    int    `json:"shut_after"`
+	CtxMs        int    `json:"ctx_ms,omitempty"`
+	Transient    []int  `json:"transient,omitempty"`      // these accept / datagram-read attempts fail with a temporary, non-timeout error
+	FatalAccept  int    `json:"fatal_accept,omitempty"`   // tcp / tls: from this Accept attempt on (1-based) the listener fails with a permanent, non-temporary error: the serve call may end with that error, everything else the property says still holds
+	OwnErr       bool   `json:"own_closed_err,omitempty"` // tcp / tls: Accept on the closed listener fails with an error of the listener's own, not net.ErrClosed
+	CloseErr     bool   `json:"close_err,omitempty"`      // tcp / tls: closing the listener reports an error (it is closed all the same)
+	Listen       bool   `json:"listen,omitempty"`         // the server is started with ListenAndServe (socket seam of the instrumented build) instead of ActivateAndServe
+	ReuseOpts    int    `json:"reuse_opts,omitempty"`     // ListenAndServe: bit 0 ReusePort, bit 1 ReuseAddr
+	OwnReader    bool   `json:"own_reader,omitempty"`     // tcp / tls: the decorated reader does the reading of stream messages itself (length prefix, then body, straight from the connection) instead of handing on to the server's
+	NoDeadlines  bool   `json:"no_deadlines,omitempty"`   // tcp: the server's connections are of a kind that does not support deadlines; Shutdown cannot interrupt their reads and has to wait for the clients to go - everything else it promises still holds
+	CloseStallMs int    `json:"close_stall_ms,omitempty"` // tcp / tls, instrumented build: closing a connection takes up to this much simulated time
+	ShutB        bool   `json:"shutdown_b,omitempty"`     // a second, concurrent Shutdown
+	Shut3        bool   `json:"shutdown_3,omitempty"`     // a Shutdown after the first has returned
 }
 
 func Gen(seed uint64, tier string) any {
@@ -159,6 +163,14 @@ func Gen(seed uint64, tier string) any {
 	}
 	sc.ShutB = core.Chance(r, 20)
 	sc.Shut3 = core.Chance(r, 20)
+	if sc.Transport != "udp" {
+		sc.OwnReader = core.Chance(r, 15)
+		if sc.Transport == "tcp" && core.Chance(r, 8) {
+			sc.NoDeadlines = true
+		} else if core.Chance(r, 10) {
+			sc.CloseStallMs = core.Pick(r, 1500, 5000, 20000)
+		}
+	}
 	if core.Chance(r, 12) {
 		sc.Transient = append(sc.Transient, r.IntN(3))
 		if core.Chance(r, 40) {
@@ -233,6 +245,8 @@ func Shrink(x any) []any {
 	flag(func(n *Scenario) *bool { return &n.Listen })
 	flag(func(n *Scenario) *bool { return &n.CloseErr })
 	flag(func(n *Scenario) *bool { return &n.OwnErr })
+	flag(func(n *Scenario) *bool { return &n.OwnReader })
+	flag(func(n *Scenario) *bool { return &n.NoDeadlines })
 	if sc.FailStart != "" {
 		n := cp()
 		n.FailStart = ""
@@ -257,6 +271,7 @@ func Shrink(x any) []any {
 	num(func(n *Scenario) *int { return &n.ServeAfter })
 	num(func(n *Scenario) *int { return &n.ShutAfter })
 	num(func(n *Scenario) *int { return &n.MaxTCPQ })
+	num(func(n *Scenario) *int { return &n.CloseStallMs })
 	if sc.Strategy != kernel.StratUniform {
 		n := cp()
 		n.Strategy = kernel.StratUniform
@@ -422,6 +437,33 @@ func (x *run) ServeDNS(w dns.ResponseWriter, r *dns.Msg) {
 }
 
 // --- lifecycle tasks
+
+// ownReader is a DecorateReader product that reads stream messages itself: the application has its
+// own framing code (metrics, a size policy) and does not hand on to the reader it was given. It sets
+// no deadlines - those are the server's business.
+type ownReader struct {
+	k          *kernel.K
+	dns.Reader // (datagrams are left to the reader it was given)
+}
+
+//go:norace
+func (o *ownReader) ReadTCP(conn net.Conn, timeout time.Duration) ([]byte, error) {
+	o.k.Yield("reader.own", 0)
+	var pre [2]byte
+	if _, err := io.ReadFull(conn, pre[:]); err != nil {
+		return nil, err
+	}
+	m := make([]byte, int(pre[0])<<8|int(pre[1]))
+	if _, err := io.ReadFull(conn, m); err != nil {
+		return nil, err
+	}
+	return m, nil
+}
+
+//go:norace
+func (o *ownReader) ReadPacketConn(conn net.PacketConn, timeout time.Duration) ([]byte, net.Addr, error) {
+	return o.Reader.(dns.PacketConnReader).ReadPacketConn(conn, timeout)
+}
 
 // streamOnlyReader hides the PacketConnReader side of the reader it wraps.
 type streamOnlyReader struct{ dns.Reader }
@@ -990,6 +1032,14 @@ func runIn(sc *Scenario, res *core.Result, verbose bool) {
 			srv.DecorateWriter = (&common.WDecorator{K: k}).Decorate
 		}
 	}
+	if sc.OwnReader && sc.Transport != "udp" {
+		srv.DecorateReader = func(inner dns.Reader) dns.Reader { return &ownReader{k: k, Reader: inner} }
+		res.Bump("cover.reader_that_supplants_the_servers")
+	}
+	n.SrvNoDeadlines = sc.NoDeadlines && sc.Transport == "tcp"
+	if sc.CloseStallMs > 0 && n.CloseYields && sc.Transport != "udp" {
+		n.SrvCloseStall = time.Duration(sc.CloseStallMs) * time.Millisecond
+	}
 	// ListenAndServe needs the socket seam; for udp it insists on a UDP socket
 	x.viaListen = sc.Listen && common.ListenSeam() && (sc.Transport != "udp" || (sc.UDPSock && common.UDPSeam))
 	if common.ListenSeam() {
@@ -1236,7 +1286,12 @@ func (x *run) judge(outcome string) {
 		if st.enterSeq < acc.callSeq && (st.exited == 0 || st.exitSeq > acc.callSeq) {
 			res.Bump("probe.handler_in_flight_at_shutdown_call")
 		}
-		// S3: no handler starts after a completed shutdown
+		// S3: no handler starts after a completed shutdown - and whatever the call returned, a request that
+		// was not even sent when it returned cannot have been read before: the server has stopped reading
+		if ctxExpired && st.sentSeq > acc.retSeq && !x.n.SrvNoDeadlines { // (a read that cannot be interrupted is still there when the next request comes)
+			res.Bump("oracle.S3_nothing_read_after_return")
+			res.Fail("S3", "request-read-after-shutdown", "the request for %s was sent after %s had returned (%s), yet the server read it and started its handler: the server goes on serving", name, acc.name, acc.err)
+		}
 		if !ctxExpired {
 			res.Bump("oracle.S3_no_late_start")
 			if st.enterSeq > acc.retSeq {
@@ -1293,7 +1348,9 @@ func (x *run) judge(outcome string) {
 			base = lastExit
 		}
 		res.Bump("oracle.S6_liveness")
-		if !ctxExpired {
+		// (a server whose connections cannot be interrupted, or take their time to close, waits for them - rightly)
+		waitsForConns := x.n.SrvNoDeadlines || x.n.SrvCloseStall > 0
+		if !ctxExpired && !waitsForConns {
 			if d := acc.retT.Sub(base); d > time.Second {
 				res.Fail("S6", "shutdown-slow", "%s returned %v (simulated) after it was called and the last handler had exited: it waited for a timeout or for a client", acc.name, d)
 			}
@@ -1301,7 +1358,7 @@ func (x *run) judge(outcome string) {
 		for _, c := range starts {
 			if c.err == "" {
 				b := base
-				if ctxExpired {
+				if ctxExpired || waitsForConns {
 					continue
 				}
 				if d := c.retT.Sub(b); d > time.Second {
